@@ -1,0 +1,158 @@
+//! Verification hooks: thin, add-only `pub` wrappers over crate-private functions so that an
+//! external harness can drive them directly. Only compiled with the non-default `verif-hooks`
+//! feature; nothing in the crate depends on this module.
+#![allow(missing_docs, clippy::missing_errors_doc, clippy::missing_panics_doc, clippy::type_complexity)]
+
+use crate::types::{R, T};
+use crate::{conversion, encodings, hashing, helpers, high_low, ntt as nttm};
+
+/// Plain coefficient array used at the hook boundary (no crate-private types leak out).
+pub type Poly = [i32; 256];
+
+fn rs<const N: usize>(v: &[Poly; N]) -> [R; N] { core::array::from_fn(|i| R(v[i])) }
+fn ts<const N: usize>(v: &[Poly; N]) -> [T; N] { core::array::from_fn(|i| T(v[i])) }
+fn from_rs<const N: usize>(v: &[R; N]) -> [Poly; N] { core::array::from_fn(|i| v[i].0) }
+fn from_ts<const N: usize>(v: &[T; N]) -> [Poly; N] { core::array::from_fn(|i| v[i].0) }
+
+// ----- ntt.rs / helpers.rs vector kernels -----
+
+#[must_use]
+pub fn ntt<const N: usize>(w: &[Poly; N]) -> [Poly; N] { from_ts(&nttm::ntt(&rs(w))) }
+
+#[must_use]
+pub fn inv_ntt<const N: usize>(w_hat: &[Poly; N]) -> [Poly; N] { from_rs(&nttm::inv_ntt(&ts(w_hat))) }
+
+#[must_use]
+pub fn mat_vec_mul<const K: usize, const L: usize>(a_hat: &[[Poly; L]; K], u_hat: &[Poly; L]) -> [Poly; K] {
+    let a: [[T; L]; K] = core::array::from_fn(|k| ts(&a_hat[k]));
+    from_ts(&helpers::mat_vec_mul(&a, &ts(u_hat)))
+}
+
+#[must_use]
+pub fn to_mont<const N: usize>(v: &[Poly; N]) -> [Poly; N] { from_ts(&helpers::to_mont(&ts(v))) }
+
+#[must_use]
+pub fn add_vector_ntt<const N: usize>(v: &[Poly; N], w: &[Poly; N]) -> [Poly; N] {
+    from_rs(&helpers::add_vector_ntt(&rs(v), &rs(w)))
+}
+
+#[must_use]
+pub fn infinity_norm<const N: usize>(w: &[Poly; N]) -> i32 { helpers::infinity_norm(&rs(w)) }
+
+#[must_use]
+pub fn is_in_range(w: &Poly, lo: i32, hi: i32) -> bool { helpers::is_in_range(&R(*w), lo, hi) }
+
+#[must_use]
+pub fn zeta_table_mont() -> [i32; 256] { helpers::ZETA_TABLE_MONT }
+
+// ----- helpers.rs scalar kernels -----
+
+#[must_use]
+pub fn mont_reduce(a: i64) -> i32 { helpers::mont_reduce(a) }
+#[must_use]
+pub fn partial_reduce64(a: i64) -> i32 { helpers::partial_reduce64(a) }
+#[must_use]
+pub fn partial_reduce32(a: i32) -> i32 { helpers::partial_reduce32(a) }
+#[must_use]
+pub fn full_reduce32(a: i32) -> i32 { helpers::full_reduce32(a) }
+#[must_use]
+pub fn center_mod(a: i32) -> i32 { helpers::center_mod(a) }
+#[must_use]
+pub fn bit_length(a: i32) -> usize { helpers::bit_length(a) }
+
+// ----- high_low.rs -----
+
+#[must_use]
+pub fn power2round<const N: usize>(r: &[Poly; N]) -> ([Poly; N], [Poly; N]) {
+    let (r1, r0) = high_low::power2round(&rs(r));
+    (from_rs(&r1), from_rs(&r0))
+}
+#[must_use]
+pub fn decompose(gamma2: i32, r: i32) -> (i32, i32) { high_low::decompose(gamma2, r) }
+#[must_use]
+pub fn high_bits(gamma2: i32, r: i32) -> i32 { high_low::high_bits(gamma2, r) }
+#[must_use]
+pub fn low_bits(gamma2: i32, r: i32) -> i32 { high_low::low_bits(gamma2, r) }
+#[must_use]
+pub fn make_hint(gamma2: i32, z: i32, r: i32) -> bool { high_low::make_hint(gamma2, z, r) }
+#[must_use]
+pub fn use_hint(gamma2: i32, h: i32, r: i32) -> i32 { high_low::use_hint(gamma2, h, r) }
+
+// ----- conversion.rs -----
+
+pub fn coeff_from_three_bytes<const CTEST: bool>(b: [u8; 3]) -> Result<i32, &'static str> {
+    conversion::coeff_from_three_bytes::<CTEST>(b)
+}
+pub fn coeff_from_half_byte<const CTEST: bool>(eta: i32, b: u8) -> Result<i32, &'static str> {
+    conversion::coeff_from_half_byte::<CTEST>(eta, b)
+}
+pub fn simple_bit_pack(w: &Poly, b: i32, bytes_out: &mut [u8]) { conversion::simple_bit_pack(&R(*w), b, bytes_out); }
+pub fn bit_pack(w: &Poly, a: i32, b: i32, bytes_out: &mut [u8]) { conversion::bit_pack(&R(*w), a, b, bytes_out); }
+pub fn simple_bit_unpack(v: &[u8], b: i32) -> Result<Poly, &'static str> {
+    conversion::simple_bit_unpack(v, b).map(|r| r.0)
+}
+pub fn bit_unpack(v: &[u8], a: i32, b: i32) -> Result<Poly, &'static str> {
+    conversion::bit_unpack(v, a, b).map(|r| r.0)
+}
+pub fn hint_bit_pack<const CTEST: bool, const K: usize>(omega: i32, h: &[Poly; K], y_bytes: &mut [u8]) {
+    conversion::hint_bit_pack::<CTEST, K>(omega, &rs(h), y_bytes);
+}
+pub fn hint_bit_unpack<const K: usize>(omega: i32, y_bytes: &[u8]) -> Result<[Poly; K], &'static str> {
+    conversion::hint_bit_unpack::<K>(omega, y_bytes).map(|h| from_rs(&h))
+}
+
+// ----- encodings.rs -----
+
+#[must_use]
+pub fn pk_encode<const K: usize, const PK_LEN: usize>(rho: &[u8; 32], t1: &[Poly; K]) -> [u8; PK_LEN] {
+    encodings::pk_encode::<K, PK_LEN>(rho, &rs(t1))
+}
+pub fn pk_decode<const K: usize, const PK_LEN: usize>(pk: &[u8; PK_LEN]) -> Result<([u8; 32], [Poly; K]), &'static str> {
+    encodings::pk_decode::<K, PK_LEN>(pk).map(|(rho, t1)| (*rho, from_rs(&t1)))
+}
+#[must_use]
+pub fn sk_encode<const K: usize, const L: usize, const SK_LEN: usize>(
+    eta: i32, rho: &[u8; 32], k: &[u8; 32], tr: &[u8; 64], s_1: &[Poly; L], s_2: &[Poly; K], t_0: &[Poly; K],
+) -> [u8; SK_LEN] {
+    encodings::sk_encode::<K, L, SK_LEN>(eta, rho, k, tr, &rs(s_1), &rs(s_2), &rs(t_0))
+}
+pub fn sk_decode<const K: usize, const L: usize, const SK_LEN: usize>(
+    eta: i32, sk: &[u8; SK_LEN],
+) -> Result<([u8; 32], [u8; 32], [u8; 64], [Poly; L], [Poly; K], [Poly; K]), &'static str> {
+    encodings::sk_decode::<K, L, SK_LEN>(eta, sk)
+        .map(|(rho, k, tr, s1, s2, t0)| (*rho, *k, *tr, from_rs(&s1), from_rs(&s2), from_rs(&t0)))
+}
+#[must_use]
+pub fn sig_encode<const CTEST: bool, const K: usize, const L: usize, const LAMBDA_DIV4: usize, const SIG_LEN: usize>(
+    gamma1: i32, omega: i32, c_tilde: &[u8; LAMBDA_DIV4], z: &[Poly; L], h: &[Poly; K],
+) -> [u8; SIG_LEN] {
+    encodings::sig_encode::<CTEST, K, L, LAMBDA_DIV4, SIG_LEN>(gamma1, omega, c_tilde, &rs(z), &rs(h))
+}
+pub fn sig_decode<const K: usize, const L: usize, const LAMBDA_DIV4: usize, const SIG_LEN: usize>(
+    gamma1: i32, omega: i32, sigma: &[u8; SIG_LEN],
+) -> Result<([u8; LAMBDA_DIV4], [Poly; L], Option<[Poly; K]>), &'static str> {
+    encodings::sig_decode::<K, L, LAMBDA_DIV4, SIG_LEN>(gamma1, omega, sigma)
+        .map(|(c, z, h)| (c, from_rs(&z), h.map(|h| from_rs(&h))))
+}
+pub fn w1_encode<const K: usize>(gamma2: i32, w1: &[Poly; K], w1_tilde: &mut [u8]) {
+    encodings::w1_encode::<K>(gamma2, &rs(w1), w1_tilde);
+}
+
+// ----- hashing.rs -----
+
+#[must_use]
+pub fn sample_in_ball<const CTEST: bool>(tau: i32, rho: &[u8]) -> Poly { hashing::sample_in_ball::<CTEST>(tau, rho).0 }
+#[must_use]
+pub fn expand_a<const CTEST: bool, const K: usize, const L: usize>(rho: &[u8; 32]) -> [[Poly; L]; K] {
+    let a = hashing::expand_a::<CTEST, K, L>(rho);
+    core::array::from_fn(|k| from_ts(&a[k]))
+}
+#[must_use]
+pub fn expand_s<const CTEST: bool, const K: usize, const L: usize>(eta: i32, rho: &[u8; 64]) -> ([Poly; L], [Poly; K]) {
+    let (s1, s2) = hashing::expand_s::<CTEST, K, L>(eta, rho);
+    (from_rs(&s1), from_rs(&s2))
+}
+#[must_use]
+pub fn expand_mask<const L: usize>(gamma1: i32, rho: &[u8; 64], mu: u16) -> [Poly; L] {
+    from_rs(&hashing::expand_mask::<L>(gamma1, rho, mu))
+}
